@@ -29,6 +29,7 @@ import (
 	"github.com/nuts-foundation/nuts-node/crypto/hash"
 	"github.com/nuts-foundation/nuts-node/network/dag"
 	"github.com/nuts-foundation/nuts-node/network/transport/grpc"
+	"google.golang.org/protobuf/proto"
 
 	"verif/ev"
 )
@@ -92,6 +93,18 @@ type vc07Phase struct {
 	AtDelivery   map[int][2][]int `json:"at_delivery,omitempty"`
 	DisconnectAt map[int][2]bool  `json:"disconnect_at,omitempty"` // just before the delivery with this index within the round
 	NoReconnect  bool             `json:"no_reconnect"`            // scripted round during which a disconnected node stays disconnected
+	// FailCreate: one creation whose State.Add fails at a KV step (the creator sees the error; the script repeats the creation in
+	// a later round)
+	FailCreate *vc07FailCreate `json:"fail_create,omitempty"`
+}
+
+// vc07FailCreate: node Node creates transaction ID while the At-th KV step of that State.Add fails. Delivery = -1: before the
+// ticks of the round; >= 0: just before the delivery with that index within the round (or at the end of a shorter round).
+type vc07FailCreate struct {
+	Node     int `json:"node"`
+	ID       int `json:"id"`
+	At       int `json:"at"`
+	Delivery int `json:"delivery"`
 }
 
 func (w *vc07World) create(t testing.TB, node int, ids []int) {
@@ -113,10 +126,15 @@ func vc07RunScript(t testing.TB, dir string, u *vc07Universe, tpl *vc07Template,
 }
 
 func vc07RunScriptPeers(t testing.TB, dir string, u *vc07Universe, tpl *vc07Template, script []vc07Phase, devs []vc07Dev, rmax int, outcome func(string), withDID bool) vc07LargeResult {
-	w := vc07BuildPeers(t, dir, u, tpl, [2][]int{}, withDID)
+	return vc07RunScriptOpt(t, dir, u, tpl, script, devs, rmax, outcome, vc07BuildOpts{withDID: withDID})
+}
+
+func vc07RunScriptOpt(t testing.TB, dir string, u *vc07Universe, tpl *vc07Template, script []vc07Phase, devs []vc07Dev, rmax int, outcome func(string), opts vc07BuildOpts) (res vc07LargeResult) {
+	w := vc07BuildOpt(t, dir, u, tpl, [2][]int{}, opts)
 	defer w.close()
 	w.outcome = outcome
-	res := vc07LargeResult{rounds: -1, kinds: map[string]int{}}
+	res = vc07LargeResult{rounds: -1, kinds: map[string]int{}}
+	defer func() { res.oversize, res.oversizeKind, res.maxEnvelope = w.oversize, w.oversizeKind, w.maxEnvelope }()
 	devAt := map[int]string{}
 	for _, d := range devs {
 		devAt[d.Pos] = d.Kind
@@ -139,8 +157,25 @@ func vc07RunScriptPeers(t testing.TB, dir string, u *vc07Universe, tpl *vc07Temp
 		}
 		return c == ""
 	}
+	// failCreate: the creation fails at a KV step; the aggregates are judged at once (between the failure and the repetition)
+	failCreate := func(fc *vc07FailCreate) {
+		w.setClock()
+		w.armKV(fc.Node, fc.At)
+		err := w.nodes[fc.Node].state.Add(context.Background(), w.u.Txs[fc.ID], w.u.Payloads[fc.ID])
+		_, fired, step := w.disarmKV(fc.Node)
+		w.steps++
+		w.nodes[fc.Node].curValid, w.nodes[fc.Node].lightValid = false, false
+		w.collect()
+		if fired {
+			res.fired, res.firedLabel = true, step.Label()
+			if outcome != nil {
+				outcome("creation-fault:" + step.Label() + ":failed=" + fmt.Sprint(err != nil))
+			}
+		}
+		safety(false)
+	}
 	for round := 0; ; round++ {
-		if !safety(false) {
+		if res.clause != "" || !safety(false) {
 			break
 		}
 		scripted := round < len(script)
@@ -176,6 +211,11 @@ func vc07RunScriptPeers(t testing.TB, dir string, u *vc07Universe, tpl *vc07Temp
 		w.nodes[1].p.cMan.evict()
 		w.create(t, 0, ph.BeforeTicks[0])
 		w.create(t, 1, ph.BeforeTicks[1])
+		failDone := ph.FailCreate == nil
+		if !failDone && ph.FailCreate.Delivery < 0 {
+			failCreate(ph.FailCreate)
+			failDone = true
+		}
 		for n := 0; n < 2; n++ {
 			if w.nodes[n].connected { // a disconnected node has no gossip ticker for the peer
 				w.apply(vc07Event{K: "tick", N: n})
@@ -198,6 +238,10 @@ func vc07RunScriptPeers(t testing.TB, dir string, u *vc07Universe, tpl *vc07Temp
 			if c, ok := ph.AtDelivery[inRound]; ok {
 				w.create(t, 0, c[0])
 				w.create(t, 1, c[1])
+			}
+			if !failDone && ph.FailCreate.Delivery == inRound {
+				failCreate(ph.FailCreate)
+				failDone = true
 			}
 			if d, ok := ph.DisconnectAt[inRound]; ok {
 				for n := 0; n < 2; n++ {
@@ -248,6 +292,9 @@ func vc07RunScriptPeers(t testing.TB, dir string, u *vc07Universe, tpl *vc07Temp
 				w.create(t, 1, c[1])
 			}
 		}
+		if !failDone {
+			failCreate(ph.FailCreate)
+		}
 		if res.clause != "" {
 			break
 		}
@@ -264,6 +311,12 @@ type vc07Limit struct {
 	WithDID bool     // the connections carry authenticated node DIDs
 	Kinds   []string // deviation kinds swept over every position (nil: fair run only)
 	Kinds2  []string // thorough: additional kinds
+	KVStep  bool     // the scenario plans a storage fault at a numbered KV step: a run in which it did not fire is a trivial case
+	// MaxMsg > 0: grpc.MaxMessageSizeInBytes (a package variable of the product) is set to this value while the scenario is built
+	// and run. Build2 (instead of Build): scenarios that share a cached base template and add their own transactions before the
+	// connection (vc07BuildOpts.pre); skip != "" means that the scenario's input is outside the property (reported as such).
+	MaxMsg int
+	Build2 func(t testing.TB, dir string) (u *vc07Universe, tpl *vc07Template, script []vc07Phase, opts vc07BuildOpts, skip string)
 }
 
 func vc07Seq(from, n int) []int {
@@ -438,6 +491,67 @@ func vc07Limits(thorough bool) []vc07Limit {
 			})
 			return u, [2][]int{{0}, append([]int{0}, ids...)}, nil
 		}})
+	// --- storage faults on LOCAL CREATION in the middle of a running exchange: 3 transactions are under way from A; then node c
+	//     (A, the sender, or B, the receiver) creates one more transaction (before the ticks / just before the d-th delivery of the
+	//     round) and the k-th KV step of that State.Add fails: the creator sees the error and repeats the creation in the next round.
+	//     k runs over every step of the Add (the read of the presence check, begin, every put, commit); a k beyond the trace
+	//     is a run without fault (trivial) -----------------------------------------------------------------------------------
+	for c := 0; c < 2; c++ {
+		for d := -1; d <= 5; d++ {
+			if !thorough && d > 3 {
+				continue
+			}
+			for k := 1; k <= 13; k++ {
+				c, d, k := c, d, k
+				out = append(out, vc07Limit{Name: fmt.Sprintf("create-fault-node-%s-at-delivery-%d-kv-step-%d", []string{"A", "B"}[c], d, k),
+					Class: fmt.Sprintf("create-fault-node-%s", []string{"A", "B"}[c]), KVStep: true,
+					Build: func() (*vc07Universe, [2][]int, []vc07Phase) {
+						prevs, a := vc07Chain([][]int{nil}, 0, 3)
+						prevs, b := vc07Chain(prevs, 0, 1) // a second branch from the root: either node can create it at any moment
+						var again [2][]int
+						again[c] = b
+						return vc07PayloadUniverse("createFault", prevs, vc07SmallPayload), [2][]int{{0}, {0}}, []vc07Phase{
+							{BeforeTicks: [2][]int{a, nil}, FailCreate: &vc07FailCreate{Node: c, ID: b[0], At: k, Delivery: d}},
+							{BeforeTicks: again},
+						}
+					}})
+			}
+		}
+	}
+	// --- message-size boundary sweep: the ESTIMATED size (sum of len(payload)+len(data)+9, what chunkTransactionList counts) of the
+	//     first k transactions of a TransactionList answer takes every value v in [max-600, max+600] (max = message size - 512) in
+	//     steps of 16 (thorough: 4), for k = 1, 2, 3, for an answer to a TransactionListQuery (refs from an IBLT decode / refs from a
+	//     gossip message) and to a TransactionRangeQuery (the requester has page 0 complete, the answer starts exactly at the page
+	//     boundary LC 512: page boundary x message-size boundary). The product's message size is a package variable: it is set to
+	//     64 KiB (the smallest power of two that holds the TransactionSet message with its 1024-bucket IBLT) so that the sweep
+	//     is cheap; thorough repeats the list-query sweep with the shipped 512 KiB. The stream refuses what exceeds the limit (collect).
+	step := 16
+	if thorough {
+		step = 4
+	}
+	type sizeCfg struct {
+		limit int
+		paths []string
+		step  int
+	}
+	cfgs := []sizeCfg{{64 * 1024, []string{"list-query", "gossip-list-query", "range-query"}, step}}
+	if thorough {
+		cfgs = append(cfgs, sizeCfg{512 * 1024, []string{"list-query"}, 16})
+	}
+	for _, cfg := range cfgs {
+		for _, path := range cfg.paths {
+			for k := 1; k <= 3; k++ {
+				for dv := -600; dv <= 600; dv += cfg.step {
+					cfg, path, k, dv := cfg, path, k, dv
+					out = append(out, vc07Limit{Name: fmt.Sprintf("msg-size-%dk-%s-first-%d-estimate-max%+d", cfg.limit/1024, path, k, dv),
+						Class: fmt.Sprintf("msg-size-boundary-%s-first-%d", path, k), MaxMsg: cfg.limit,
+						Build2: func(t testing.TB, dir string) (*vc07Universe, *vc07Template, []vc07Phase, vc07BuildOpts, string) {
+							return vc07SizeScenario(t, dir, path, k, cfg.limit-transactionListMessageOverhead+dv)
+						}})
+				}
+			}
+		}
+	}
 	// --- page boundary x decodability: a shared chain up to LC h-1; the lower side adds one transaction at LC h (its height is
 	//     EXACTLY h); the other side adds d transactions at LC h and one at h+1. d = 5 decodes, d = 750 is more than one IBLT of
 	//     1024 buckets decodes, so the page-by-page fallback of handleTransactionSet runs with minLC = h ------------------------
@@ -499,6 +613,120 @@ func vc07Limits(thorough bool) []vc07Limit {
 	return out
 }
 
+
+// ---------------------------------------------------------------------------------------------------------
+// message-size boundary scenarios
+
+type vc07SizeBase struct {
+	u   *vc07Universe
+	tpl *vc07Template
+}
+
+var vc07SizeBases = map[string]*vc07SizeBase{}
+
+// vc07SizeBaseFor: the shared start of a size scenario, built once per process. "range-query": both nodes hold the same chain
+// with clocks 0..511 (page 0 complete); otherwise both hold the root only.
+func vc07SizeBaseFor(t testing.TB, dir string, path string) *vc07SizeBase {
+	key := "root"
+	if path == "range-query" {
+		key = "page0"
+	}
+	if b := vc07SizeBases[key]; b != nil {
+		return b
+	}
+	prevs := [][]int{nil}
+	all := []int{0}
+	if key == "page0" {
+		var c []int
+		prevs, c = vc07Chain(prevs, 0, int(dag.PageSize)-1)
+		all = append(all, c...)
+	}
+	u := vc07NewUniverse("size-base-"+key, prevs)
+	b := &vc07SizeBase{u: u, tpl: vc07MakeTemplate(t, dir, u, [2][]int{all, all})}
+	vc07SizeBases[key] = b
+	return b
+}
+
+func vc07Filler(n, salt int) []byte {
+	p := make([]byte, n)
+	for j := range p {
+		p[j] = byte('a' + (salt+j)%26)
+	}
+	return p
+}
+
+func vc07Estimate(u *vc07Universe, i int) int {
+	return len(u.Payloads[i]) + len(u.Txs[i].Data()) + transactionListTXOverhead
+}
+
+// vc07SizeScenario: node B is ahead by a chain of k+2 transactions on top of the base; the estimated sizes of the first k add up
+// to exactly target, the next one (2000 bytes of payload) fits with them in no message, the last one is small.
+func vc07SizeScenario(t testing.TB, dir string, path string, k int, target int) (*vc07Universe, *vc07Template, []vc07Phase, vc07BuildOpts, string) {
+	base := vc07SizeBaseFor(t, dir, path)
+	var u *vc07Universe
+	var ids []int
+	for attempt := 0; ; attempt++ {
+		u = &vc07Universe{Name: "size", idx: map[hash.SHA256Hash]int{}}
+		u.Prevs = append(u.Prevs, base.u.Prevs...)
+		u.Txs = append(u.Txs, base.u.Txs...)
+		u.Payloads = append(u.Payloads, base.u.Payloads...)
+		u.Clock = append(u.Clock, base.u.Clock...)
+		for h, i := range base.u.idx {
+			u.idx[h] = i
+		}
+		ids = nil
+		sum := 0
+		for j := 0; j < k+2; j++ {
+			prev := len(u.Txs) - 1
+			size := 10
+			switch {
+			case j < k-1:
+				size = target/k - 700
+			case j == k-1:
+				probe := vc07SignPayload([]byte("probe"), u.Txs[prev])
+				size = target - sum - len(probe.Data()) - transactionListTXOverhead
+			case j == k:
+				size = 2000
+			}
+			if size < 1 {
+				return nil, nil, nil, vc07BuildOpts{}, "the target size leaves no room for a payload"
+			}
+			payload := vc07Filler(size, j+attempt)
+			tx := vc07SignPayload(payload, u.Txs[prev])
+			i := len(u.Txs)
+			u.Prevs = append(u.Prevs, []int{prev})
+			u.Txs = append(u.Txs, tx)
+			u.Payloads = append(u.Payloads, payload)
+			u.Clock = append(u.Clock, tx.Clock())
+			u.idx[tx.Ref()] = i
+			ids = append(ids, i)
+			if j < k {
+				sum += vc07Estimate(u, i)
+			}
+		}
+		if sum == target {
+			break
+		}
+		if attempt > 20 {
+			panic(fmt.Sprintf("size scenario: the first %d transactions take %d bytes, wanted %d", k, sum, target))
+		}
+	}
+	// input validity: every transaction, alone in a TransactionList message, must fit the message size — a transaction that no
+	// single message can carry cannot be delivered by any schedule (outside "provided messages are eventually delivered")
+	for _, i := range ids {
+		alone := &Envelope{Message: &Envelope_TransactionList{TransactionList: &TransactionList{ConversationID: make([]byte, 36),
+			Transactions: []*Transaction{{Data: u.Txs[i].Data(), Payload: u.Payloads[i]}}, TotalMessages: 127, MessageNumber: 127}}}
+		if proto.Size(alone) > grpc.MaxMessageSizeInBytes {
+			return nil, nil, nil, vc07BuildOpts{}, "a single transaction is larger than any one message may be"
+		}
+	}
+	if path == "gossip-list-query" {
+		// created after the connection: the refs travel in a gossip message and are requested by reference
+		return u, base.tpl, []vc07Phase{{BeforeTicks: [2][]int{nil, ids}}}, vc07BuildOpts{}, ""
+	}
+	return u, base.tpl, nil, vc07BuildOpts{pre: [2][]int{nil, ids}}, ""
+}
+
 type vc07LimitReplay struct {
 	Limit string    `json:"limit"`
 	Devs  []vc07Dev `json:"devs"`
@@ -535,16 +763,38 @@ func TestVerifC07Limits(t *testing.T) {
 		}
 		return
 	}
+	// prepare builds a scenario (setting the configured message size for scenarios that ask for it; restore() puts it back)
+	prepare := func(l vc07Limit) (u *vc07Universe, tpl *vc07Template, script []vc07Phase, opts vc07BuildOpts, skip string, restore func()) {
+		prev := grpc.MaxMessageSizeInBytes
+		restore = func() { grpc.MaxMessageSizeInBytes = prev }
+		if l.MaxMsg > 0 {
+			grpc.MaxMessageSizeInBytes = l.MaxMsg
+		}
+		if l.Build2 != nil {
+			u, tpl, script, opts, skip = l.Build2(t, dir)
+		} else {
+			var init [2][]int
+			u, init, script = l.Build()
+			tpl = vc07MakeTemplate(t, dir, u, init)
+		}
+		opts.withDID = l.WithDID
+		return
+	}
 	var rc vc07LimitReplay
 	if r.ReplayCase(&rc) {
 		for _, l := range limits {
 			if l.Name != rc.Limit {
 				continue
 			}
-			u, init, script := l.Build()
-			tpl := vc07MakeTemplate(t, dir, u, init)
-			res := vc07RunScriptPeers(t, dir, u, tpl, script, rc.Devs, rmax, outcome, l.WithDID)
-			t.Logf("rounds=%d deliveries=%d clause=%q %s messages=%v", res.rounds, res.deliveries, res.clause, res.detail, res.kinds)
+			u, tpl, script, opts, skip, restore := prepare(l)
+			if skip != "" {
+				restore()
+				t.Logf("scenario skipped: %s", skip)
+				continue
+			}
+			res := vc07RunScriptOpt(t, dir, u, tpl, script, rc.Devs, rmax, outcome, opts)
+			restore()
+			t.Logf("rounds=%d deliveries=%d clause=%q %s messages=%v largest envelopes=%v refused as too large=%d storage fault fired=%v %s", res.rounds, res.deliveries, res.clause, res.detail, res.kinds, res.maxEnvelope, res.oversize, res.fired, res.firedLabel)
 			if res.clause != "" {
 				r.Violation("C07|limits:"+sig(l, res.clause, rc.Devs), res.detail, rc)
 			}
@@ -566,6 +816,7 @@ func TestVerifC07Limits(t *testing.T) {
 	shard, nsh := r.Shard()
 	var states, trans int64
 	maxR, unit := 0, 0
+	largest := map[string]int{} // largest serialized envelope seen per message kind (every one is checked against the message size)
 	for _, l := range limits {
 		kinds := append([]string{""}, l.Kinds...)
 		if r.Thorough() {
@@ -582,6 +833,8 @@ func TestVerifC07Limits(t *testing.T) {
 		var u *vc07Universe
 		var tpl *vc07Template
 		var script []vc07Phase
+		var opts vc07BuildOpts
+		restore := func() {}
 		positions := -1
 		for _, kind := range kinds {
 			// one unit of work = (scenario, deviation kind); units are dealt round-robin
@@ -590,17 +843,43 @@ func TestVerifC07Limits(t *testing.T) {
 				continue
 			}
 			if u == nil {
-				var init [2][]int
-				u, init, script = l.Build()
-				tpl = vc07MakeTemplate(t, dir, u, init)
+				var skip string
+				u, tpl, script, opts, skip, restore = prepare(l)
+				if skip != "" {
+					// outside the property's premise (e.g. a transaction that no single message can carry): counted, not judged
+					r.Eval("")
+					r.AddExtra("limit_scenarios_skipped_input_outside_premise", 1)
+					r.Outcome("skipped:" + skip)
+					u = nil
+					break
+				}
 			}
 			run := func(devs []vc07Dev) vc07LargeResult {
-				res := vc07RunScriptPeers(t, dir, u, tpl, script, devs, rmax, outcome, l.WithDID)
+				res := vc07RunScriptOpt(t, dir, u, tpl, script, devs, rmax, outcome, opts)
 				states += res.checked
 				trans += res.steps
-				r.Eval(fmt.Sprintf("%s %v", l.Name, devs))
+				if l.KVStep && !res.fired {
+					r.Eval("") // the planned KV step does not exist in this creation: a run without fault
+				} else {
+					r.Eval(fmt.Sprintf("%s %v", l.Name, devs))
+				}
+				for k, v := range res.maxEnvelope {
+					if v > largest[k] {
+						largest[k] = v
+					}
+				}
+				if l.MaxMsg > 0 {
+					r.Outcome(fmt.Sprintf("size-sweep-messages:%d", res.kinds["TransactionList"]))
+				}
 				if res.clause != "" {
-					r.Violation("C07|limits:"+sig(l, res.clause, devs), fmt.Sprintf("%s: %s", l.Name, res.detail), vc07LimitReplay{Limit: l.Name, Devs: devs})
+					what := fmt.Sprintf("%s: %s", l.Name, res.detail)
+					if res.oversize > 0 {
+						what += fmt.Sprintf(" (the stream refused %d message(s) of kind %s whose serialized size exceeds the message size %d)", res.oversize, res.oversizeKind, grpc.MaxMessageSizeInBytes)
+					}
+					if res.fired {
+						what += " (storage fault at step " + res.firedLabel + ")"
+					}
+					r.Violation("C07|limits:"+sig(l, res.clause, devs), what, vc07LimitReplay{Limit: l.Name, Devs: devs})
 				} else {
 					r.Outcome(fmt.Sprintf("limits-rounds:%d", res.rounds))
 					r.AddExtra(fmt.Sprintf("limit_runs_converging_in_%d_rounds", res.rounds), 1)
@@ -616,12 +895,13 @@ func TestVerifC07Limits(t *testing.T) {
 				continue
 			}
 			if positions < 0 {
-				positions = vc07RunScriptPeers(t, dir, u, tpl, script, nil, rmax, nil, l.WithDID).deliveries
+				positions = vc07RunScriptOpt(t, dir, u, tpl, script, nil, rmax, nil, opts).deliveries
 			}
 			for pos := 0; pos < positions && !r.Expired() && r.Violations() == 0; pos++ {
 				run([]vc07Dev{{Pos: pos, Kind: kind}})
 			}
 		}
+		restore()
 	}
 	// the three-node line (one unit of work per scenario)
 	lineNames := []string{"line-public", "line-private-payload-at-owner", "line-private-relay-already-synced"}
@@ -643,6 +923,7 @@ func TestVerifC07Limits(t *testing.T) {
 		}
 	}
 	r.Bound("R_max_observed_limits", maxR)
+	r.Bound("largest_envelope_bytes_seen_by_kind", largest)
 	var ru syscall.Rusage
 	_ = syscall.Getrusage(syscall.RUSAGE_SELF, &ru)
 	r.Extra("cpu_seconds", float64(ru.Utime.Sec+ru.Stime.Sec)+float64(ru.Utime.Usec+ru.Stime.Usec)/1e6)
